@@ -33,6 +33,7 @@ structure Mon where
   dropped : List (BId × EId) := []      -- events a run loop had taken when it was stopped / cancelled: never processed
   wiAccepted : List (Nat × List EId) := []      -- per blocked wait_until_idle caller: events accepted by its bus before the call
   stopped : List BId := []              -- buses whose stop() has returned
+  heldExtra : List (BId × EId) := []    -- events a run loop took while it was not polling (a second event in hand: only on a history followed after the correspondence has broken)
   rlPos : List (BId × Nat) := []        -- per bus: the highest enqueue position whose processing a run loop has begun
   rlCancelledBy : List BId := []        -- buses whose run-loop task was cancelled from outside (until a new one is created)
   expSince : List (Nat × List EId) := []        -- per pending expect(): events of its bus begun since the call, in order
@@ -317,6 +318,7 @@ def Mon.step (m : Mon) (w : World) (l : Label) (w' : World) : Mon × List Vio :=
       | _, _ => m
     let ordinary : List HId := ((matching (w.bus b) (w.ev e).etype).filter fun r =>
       match r.kind with | .async | .sync => true | _ => false).map (·.hid)
+    let m := match p with | .rl _ => { m with heldExtra := m.heldExtra.erase (b, e) } | _ => m
     ({ m with begun := m.begun ++ [(b, e)], selAt := m.selAt ++ [((b, e), ordinary)],
               expSince := m.expSince.map fun (x, l) =>
                 match w.waiter x with
@@ -334,6 +336,16 @@ def Mon.step (m : Mon) (w : World) (l : Label) (w' : World) : Mon × List Vio :=
               | none => ["C02-inv"])
            | _ => ["C02-inv"])
           s!"bus {b}: {e} begins inline while the run loop holds an earlier event" else []) ++
+     -- ... nor while the run loop of the bus has taken an earlier event it has not begun (beside the one it is processing)
+     (match p with
+      | .inst _ =>
+        let posOf (x : EId) : Option Nat := (((w.bus b).enq.zipIdx.filter (fun (y : EId × Nat) => y.1 == x)).map (fun (y : EId × Nat) => y.2)).getLast?
+        (match m.heldExtra.find? (fun (x : BId × EId) => x.1 == b && x.2 != e &&
+                 (match posOf x.2, pos with | some a, some n => decide (a < n) | _, _ => false)) with
+         | some x => if C02.permitted w e then [] else
+             v "C02" "beginOrder" [] s!"bus {b}: {e} begins inline although the bus's run loop has taken the earlier event {x.2} and not begun it, and {e} is neither awaited nor a descendant of an awaited event"
+         | none => [])
+      | _ => []) ++
      -- the run loop(s) of a bus begin events in the order they were enqueued
      (if outOfOrder then v "C02" "runLoopOrder" [] s!"bus {b}: the run loop begins event {e} (enqueue position {pos}) after having begun position {top}" else []) ++
      -- (a cancelled run-loop task may still receive the item of its pending get(), but it never processes it)
@@ -464,6 +476,9 @@ def Mon.step (m : Mon) (w : World) (l : Label) (w' : World) : Mon × List Vio :=
     | _ => (m, [])
   | .rlCreate b => ({ m with stopped := m.stopped.filter (· != b), rlCancelledBy := m.rlCancelledBy.filter (· != b) }, [])
   | .cancelRl b => ({ m with rlCancelledBy := m.rlCancelledBy ++ [b] }, [])
+  | .take (.rl _) b e =>
+    -- (the guard lets a run loop take an event only while it polls, with nothing in hand)
+    (if (w.bus b).rl != .polling then { m with heldExtra := m.heldExtra ++ [(b, e)] } else m, [])
   | .take (.inst i) b e =>
     -- C05: the inline drain of an awaiting handler stops with the completion of the awaited event
     (m, match awaitedOf (w.inst i).st with
